@@ -788,13 +788,24 @@ next_frame:
     errno = ENOMEM;
     return -1;
   }
+  /*
+   * data is only valid for this call. If an earlier call had to return
+   * without the whole frame, what it got is in (and is added to) rx_data.
+   */
   ret = session->sock.lfunc[COAP_LAYER_WS].l_read(session,
+                                                  session->ws->rx_data ?
+                                                  &session->ws->rx_data[session->ws->data_ofs] :
                                                   &data[session->ws->data_ofs],
                                                   session->ws->data_size - session->ws->data_ofs);
-  if (ret <= 0)
+  if (ret < 0)
     return ret;
   session->ws->data_ofs += ret;
   if (session->ws->data_ofs == session->ws->data_size) {
+    if (session->ws->rx_data) {
+      memcpy(data, session->ws->rx_data, session->ws->data_size);
+      coap_free_type(COAP_STRING, session->ws->rx_data);
+      session->ws->rx_data = NULL;
+    }
     if (session->ws->state == COAP_SESSION_TYPE_SERVER) {
       /* Need to unmask the data */
       coap_ws_mask_data(session, data, session->ws->data_size);
@@ -807,6 +818,15 @@ next_frame:
     return session->ws->data_size;
   }
   /* Need to get in all of the data */
+  if (!session->ws->rx_data && session->ws->data_ofs > 0) {
+    /* Keep what is in so far, data is not valid after return */
+    session->ws->rx_data = coap_malloc_type(COAP_STRING, session->ws->data_size);
+    if (!session->ws->rx_data) {
+      errno = ENOMEM;
+      return -1;
+    }
+    memcpy(session->ws->rx_data, data, session->ws->data_ofs);
+  }
   coap_log_debug("*  %s: Waiting Packet size %zu (got %zu)\n", coap_session_str(session),
                  session->ws->data_size, session->ws->data_ofs);
   return 0;
